@@ -16,12 +16,14 @@ type ExecMode struct {
 	Panics    bool // panic outcomes (C04)
 	DirFaults bool // directive err/null(/panic)
 	Scheds    bool // gated schedules (C06)
+	IntFaults bool // field / root-field interceptor err/panic
 	Mutations bool // include mutation operations
 	Defer     bool // @defer in operations (C13 uses its own trace module)
 	Module    string
 	Config    string
 	PlansPer  int
 	Procs     int
+	Env       []string // extra environment of the probe processes
 }
 
 // derivePlans builds fault plans for an operation from the events of its
@@ -42,6 +44,16 @@ func derivePlan(s *SchemaJ, base *ur.Result, r *rand.Rand, m ExecMode, intensity
 				opts = append(opts, "panic")
 			}
 			dplan[ev.P+"@"+ev.T] = opts[r.Intn(len(opts))]
+		}
+	}
+	if m.IntFaults {
+		for _, ev := range ends {
+			if r.Intn(100) < intensity/3 {
+				dplan[ev.P+"@#f"] = []string{"err", "panic"}[r.Intn(2)]
+			}
+			if !strings.Contains(ev.P, ".") && r.Intn(100) < intensity/8 {
+				dplan[ev.P+"@#r"] = "panic"
+			}
 		}
 	}
 	for _, ev := range ends {
@@ -272,7 +284,7 @@ func ExecConformance(c *Check, prop string, bins map[string]string, vs []Variant
 		q := op.Render()
 		base = append(base, &Scenario{ID: fmt.Sprintf("%s-op%d", prop, i), Op: op, Query: q, Vars: op.Vars, Variant: vs[0].ID()})
 	}
-	if err := RunScenarios(first, base, m.Procs, nil); err != nil {
+	if err := RunScenarios(first, base, m.Procs, m.Env); err != nil {
 		Infra("run baseline: %v", err)
 	}
 	// 2. derive plans
@@ -321,14 +333,22 @@ func ExecConformance(c *Check, prop string, bins map[string]string, vs []Variant
 			cp.Result = nil
 			scs = append(scs, &cp)
 		}
-		if err := RunScenarios(bins[v.ID()], scs, m.Procs, nil); err != nil {
+		if err := RunScenarios(bins[v.ID()], scs, m.Procs, m.Env); err != nil {
 			Infra("run %s: %v", v.ID(), err)
 		}
 		var ok []*Scenario
 		for _, s := range scs {
 			c.AddEvals(1)
+			if s.Crashed && strings.Contains(s.Stderr, "DATA RACE") {
+				c.Violate("data-race", fmt.Sprintf("race detector report on %s executing %s sched=%s\n%s", v.ID(), s.Query, s.Sched, trunc(s.Stderr, 3000)), s)
+				continue
+			}
 			if s.Crashed || s.Result == nil {
-				c.Violate("process-crash", fmt.Sprintf("probe server %s died executing %s plan=%v\n%s", v.ID(), s.Query, s.Plan, tail(s.Stderr, 2000)), s)
+				c.Violate("process-crash"+faultSuffix(s), fmt.Sprintf("probe server %s died executing %s plan=%v dirplan=%v\n%s", v.ID(), s.Query, s.Plan, s.DirPlan, tail(s.Stderr, 2000)), s)
+				continue
+			}
+			if len(s.Result.Resps) == 0 && !s.Result.Hung {
+				c.Violate("no-response"+faultSuffix(s), fmt.Sprintf("operation produced no response on %s (a panic escaped the executor?): %s plan=%v dirplan=%v notes=%v", v.ID(), s.Query, s.Plan, s.DirPlan, s.Result.Notes), s)
 				continue
 			}
 			if s.Result.Hung {
@@ -388,6 +408,16 @@ func ExecConformance(c *Check, prop string, bins map[string]string, vs []Variant
 			}
 		}
 	}
+}
+
+// faultSuffix names the fault kinds of a plan that known findings are keyed by.
+func faultSuffix(s *Scenario) string {
+	for k, h := range s.DirPlan {
+		if strings.HasSuffix(k, "@#r") && h == "panic" {
+			return ":root-field-interceptor-panic"
+		}
+	}
+	return ""
 }
 
 func classOf(s *Scenario) string {
